@@ -48,3 +48,9 @@ impl<T: GetOffset + core::fmt::Debug> LinSearchHint for &[T] {
         Ok(idx)
     }
 }
+
+// Verification hook (inert unless built with `--cfg nrel_altrios_verif` or under `cargo kani`).
+#[cfg(any(kani, nrel_altrios_verif))]
+mod verif_hook {
+    include!(concat!(env!("NREL_ALTRIOS_VERIF_DIR"), "/hooks/lin_search_hint.rs"));
+}
